@@ -6,6 +6,7 @@ import re
 from typing import Dict, List, Optional, Set, Tuple
 
 from ..core import AnalysisError, FunctionInfo, Project, arg_for, dotted, is_const, kwarg, norm, param_names, walk_no_nested
+from .. import sym
 from ..util import assignments, count_negations, mentions, returns_of, stmt_text, strip_casts
 from .shared import MAT, NARWHALS, PANDAS
 
@@ -117,15 +118,22 @@ def r1(ctx):
                 return _is_reversed_of(e, tup)
             # value: scale * reduce(mul, (p[1] ... for p in <oriented>))
             val = st.value
-            red = [c for c in ast.walk(val) if isinstance(c, ast.Call) and (dotted(c.func) or "").endswith("reduce")]
-            ok_val = False
-            if len(red) == 1 and len(red[0].args) == 2 and isinstance(red[0].args[1], ast.GeneratorExp):
-                g = red[0].args[1]
-                gv = g.generators[0].target.id if isinstance(g.generators[0].target, ast.Name) else "?"
-                picks_value = any(isinstance(s_, ast.Subscript) and isinstance(s_.value, ast.Name) and s_.value.id == gv and is_const(s_.slice, 1)
-                                  for s_ in ast.walk(g.elt)) and not any(
-                    isinstance(s_, ast.Subscript) and isinstance(s_.value, ast.Name) and s_.value.id == gv and is_const(s_.slice, 0) for s_ in ast.walk(g.elt))
-                ok_val = picks_value and oriented(g.generators[0].iter) and not g.generators[0].ifs
+
+            def arms(e):
+                return arms(e.body) + arms(e.orelse) if isinstance(e, ast.IfExp) else [e]
+
+            ok_val = True
+            for arm in arms(val):  # `x if sparse else y`: every alternative must be the oriented product
+                red = [c for c in ast.walk(arm) if isinstance(c, ast.Call) and (dotted(c.func) or "").endswith("reduce")]
+                ok_arm = False
+                if len(red) == 1 and len(red[0].args) == 2 and isinstance(red[0].args[1], ast.GeneratorExp):
+                    g = red[0].args[1]
+                    gv = g.generators[0].target.id if isinstance(g.generators[0].target, ast.Name) else "?"
+                    picks_value = any(isinstance(s_, ast.Subscript) and isinstance(s_.value, ast.Name) and s_.value.id == gv and is_const(s_.slice, 1)
+                                      for s_ in ast.walk(g.elt)) and not any(
+                        isinstance(s_, ast.Subscript) and isinstance(s_.value, ast.Name) and s_.value.id == gv and is_const(s_.slice, 0) for s_ in ast.walk(g.elt))
+                    ok_arm = picks_value and oriented(g.generators[0].iter) and not g.generators[0].ifs
+                ok_val = ok_val and ok_arm
             if not ok_val:
                 ctx.fail("C02.R1", inst, where, cons,
                          f"value `{norm(val)[:120]}` is not the product of the values (p[1]) of the loop tuple in factor order")
@@ -468,28 +476,64 @@ def _scale_degree(e: ast.AST):
 def r6(ctx):
     P = ctx.project
     f = P.func(f"{MAT}._flatten_encoded_evaled_factor")
-    loops = [n for n in walk_no_nested(f.node) if isinstance(n, ast.For)]
+    pn = param_names(f.node)
+    name_p, values_p = pn[1], pn[2]
+    try:
+        outs = sym.outcomes(f.node)
+    except sym.Unmodelled as e:
+        raise AnalysisError(f"C02.R6: _flatten_encoded_evaled_factor cannot be summarised: {e}")
+    loops = {id(l._sym_orig): l for o in outs for l in o.loops}
     ctx.floor("C02.R6", len(loops), 1, "flatten loops")
-    lp = loops[0]
+    lp = next(iter(loops.values()))
     ctx.look()
-    ok_iter = norm(lp.iter) == "values.items()" and isinstance(lp.target, ast.Tuple) and len(lp.target.elts) == 2
-    k, v = (lp.target.elts[0].id, lp.target.elts[1].id) if ok_iter else ("?", "?")
-    skip = any(isinstance(s, ast.If) and f"{k}.startswith('__')" in norm(s.test) and isinstance(s.body[0], ast.Continue) for s in lp.body)
-    sub = [s for s in lp.body if isinstance(s, ast.Assign) and "format(" in norm(s.value)]
-    ok_sub = len(sub) == 1 and re.fullmatch(r"name_format\.format\(name=name, field=%s\)" % k, norm(sub[0].value)) is not None
-    subname = norm(sub[0].targets[0]) if sub else "?"
-    stores = [s for s in ast.walk(lp) if isinstance(s, ast.Assign) and isinstance(s.targets[0], ast.Subscript) and norm(s.targets[0].value) == "flattened"]
-    ok_store = len(stores) == 1 and norm(stores[0].targets[0].slice) == subname and norm(stores[0].value) == v
-    rec = [c for c in ast.walk(lp) if isinstance(c, ast.Call) and isinstance(c.func, ast.Attribute) and c.func.attr == "_flatten_encoded_evaled_factor"]
-    ok_rec = len(rec) == 1 and [norm(a) for a in rec[0].args] == [subname, v]
+    tgt = lp._sym_orig.target
+    ok_iter = norm(lp._sym_head) == f"{values_p}.items()" and isinstance(tgt, ast.Tuple) and len(tgt.elts) == 2
+    k, v = (norm(tgt.elts[0]), norm(tgt.elts[1])) if ok_iter else ("?", "?")
+    inl = [o for o in outs if o.loops]
+    D = {f"isinstance({k}, str)": True, f"{k}.startswith('__')": True}
+    ND = {f"isinstance({k}, str)": False}
+    ND2 = {f"isinstance({k}, str)": True, f"{k}.startswith('__')": False}
+    base_eff = len(lp._sym_env)  # unused marker
+
+    def iteration_effects(facts):
+        """the distinct lists of effects executed in one iteration under ``facts`` (effects before the loop removed)"""
+        res = []
+        for kind, _v, effs in sym.eval_under(inl, facts, kinds=("fall", "continue", "return", "raise", "break")):
+            own = [e for e in effs if not any(e is x or norm(e) == norm(x) for x in pre)]
+            res.append((kind, own))
+        return res
+
+    pre = []
+    for o in outs:
+        if not o.loops:
+            pre = [e for e in o.effects if not isinstance(e, (ast.For, ast.While))]
+            break
+    skip = all(kind in ("continue", "fall") and not own for kind, own in iteration_effects(D)) and bool(iteration_effects(D))
+    ok_sub = ok_store = ok_rec = True
+    fmts = set()
+    H = f"hasattr({values_p}, '__formulaic_metadata__')"
+    for nd in (dict(ND, **{H: True}), dict(ND2, **{H: True})):
+        leaf = [(k_, [sym.simplify(e, nd) for e in effs]) for k_, effs in iteration_effects(dict(nd, **{f"isinstance({v}, dict)": False}))]
+        nest = [(k_, [sym.simplify(e, nd) for e in effs]) for k_, effs in iteration_effects(dict(nd, **{f"isinstance({v}, dict)": True}))]
+        if not (len(leaf) == 1 and len(leaf[0][1]) == 1 and len(nest) == 1 and len(nest[0][1]) == 1):
+            ok_store = ok_rec = False
+            continue
+        b1 = sym.pm(f"VAR_out[ANY_fmt.format(name={name_p}, field={k})] = {v}", leaf[0][1][0])
+        b2 = sym.pm_any([f"VAR_out.update(self._flatten_encoded_evaled_factor(ANY_fmt.format(name={name_p}, field={k}), {v}))",
+                         f"VAR_out.update(self._flatten_encoded_evaled_factor(ANY_fmt.format(name={name_p}, field={k}), values={v}))",
+                         f"VAR_out.update(self._flatten_encoded_evaled_factor(name=ANY_fmt.format(name={name_p}, field={k}), values={v}))"], nest[0][1][0])
+        ok_store = ok_store and b1 is not None
+        ok_rec = ok_rec and b2 is not None and (b1 is None or b1["ANY_fmt"] == b2["ANY_fmt"])
+        if b1:
+            fmts.add(b1["ANY_fmt"])
+    ok_sub = ok_store
     ctx.check(ok_iter and skip and ok_sub and ok_store and ok_rec, "C02.R6",
-              "each flattened sub-name is formatted from, and paired with, the same (subfield, value) item; dunder keys skipped", f.module.line(lp),
+              "each flattened sub-name is formatted from, and paired with, the same (subfield, value) item; dunder keys skipped", f.module.line(lp._sym_orig),
               ctx.construct(f, text="flatten loop"),
               f"iter={ok_iter} skip_dunder={skip} subname={ok_sub} store={ok_store} recursion={ok_rec}")
-    fmt = [v_ for n_, v_, _ in assignments(f.node) if n_ == "name_format"]
-    ok = any(norm(x) == "values.__formulaic_metadata__.get_format()" for x in fmt)
+    ok = bool(fmts) and all(x == f"{values_p}.__formulaic_metadata__.get_format()" for x in fmts)
     ctx.check(ok, "C02.R6", "the name format comes from the same value's metadata", f.where, ctx.construct(f, text="name_format"),
-              f"name_format candidates: {[norm(x) for x in fmt]}")
+              f"name_format candidates: {sorted(fmts)}")
 
 
 def r9(ctx):
@@ -499,32 +543,44 @@ def r9(ctx):
     ctx.floor("C02.R9", len(regs), 3, "as_columns registrations")
     n = 0
     for f in regs:
-        for r in returns_of(f.node):
-            v = r.value
-            if isinstance(v, ast.DictComp):
-                n += 1
-                ctx.look()
-                g = v.generators[0]
-                i = g.target.id if isinstance(g.target, ast.Name) else "?"
-                ok = norm(g.iter) == "range(data.shape[1])" and not g.ifs and norm(v.key) == f"column_names[{i}]" and norm(v.value) == f"data[:, {i}]"
-                ctx.check(ok, "C02.R9", f"as_columns[{f.node.args.args[0].annotation and norm(f.node.args.args[0].annotation)}]: name i labels column i", f.module.line(r),
-                          ctx.construct(f"formulaic.utils.cast.as_columns[{norm(f.node.args.args[0].annotation)}]", text="name/column pairing"),
-                          f"split is `{norm(v)[:100]}`; expected {{column_names[i]: data[:, i] for i in range(data.shape[1])}}")
-            elif isinstance(v, ast.Call) and norm(v) == "dict(data.items())":
-                n += 1
-                ctx.ok("C02.R9", "as_columns[DataFrame] keeps each column under its own label", f.module.line(r))
-        t = norm(f.node)
-        if "column_names" in t:
-            ok = "column_names = data.__formulaic_metadata__.column_names" in t and "column_names = list(range(data.shape[1]))" in t
+        try:
+            fouts = [o for o in sym.outcomes(f.node) if o.kind == "return" and o.value is not None]
+        except sym.Unmodelled as e:
+            raise AnalysisError(f"C02.R9: {f.qualname} cannot be summarised: {e}")
+        ann = norm(f.node.args.args[0].annotation) if f.node.args.args[0].annotation is not None else None
+        H, Cn = "hasattr(data, '__formulaic_metadata__')", "data.__formulaic_metadata__.column_names"
+        splits = [o for o in fouts if any(isinstance(x, ast.DictComp) for x in ast.walk(o.value))]
+        if splits:
+            n += 1
+            ctx.look()
+            declared = sym.eval_under(splits, {H: True, Cn: True}, kinds=("return",))
+            default = sym.eval_under(splits, {H: False}, kinds=("return",)) + sym.eval_under(splits, {H: True, Cn: False}, kinds=("return",))
+            PAIR = "{ANY_names[VAR_i]: data[:, VAR_i] for VAR_i in range(data.shape[1])}"
+            bd = [sym.pm(PAIR, v) for _, v, _e in declared]
+            bf = [sym.pm(PAIR, v) for _, v, _e in default]
+            ok = bool(bd) and bool(bf) and all(b is not None for b in bd + bf)
+            ctx.check(ok, "C02.R9", f"as_columns[{ann}]: name i labels column i", f.where,
+                      ctx.construct(f"formulaic.utils.cast.as_columns[{ann}]", text="name/column pairing"),
+                      f"split is {[norm(v)[:100] for _, v, _e in declared + default]}; expected {{column_names[i]: data[:, i] for i in range(data.shape[1])}}")
+            ok = ok and all(b["ANY_names"] == Cn for b in bd) and all(b["ANY_names"] in ("list(range(data.shape[1]))", "range(data.shape[1])", "[*range(data.shape[1])]") for b in bf)
             ctx.check(ok, "C02.R9", "declared column names are used when present, else 0..k-1", f.where,
-                      ctx.construct(f"formulaic.utils.cast.as_columns[{norm(f.node.args.args[0].annotation)}]", text="column names source"), "column_names source changed")
+                      ctx.construct(f"formulaic.utils.cast.as_columns[{ann}]", text="column names source"),
+                      f"names used: declared case {[b and b['ANY_names'] for b in bd]}, default case {[b and b['ANY_names'] for b in bf]}")
+        elif any(norm(o.value) in ("dict(data.items())", "{VAR_k: VAR_v for VAR_k, VAR_v in data.items()}") for o in fouts):
+            n += 1
+            ctx.ok("C02.R9", "as_columns[DataFrame] keeps each column under its own label", f.where)
     ctx.floor("C02.R9", n, 3, "column splits")
     pm = P.func("formulaic.utils.cast.propagate_metadata").locals_named("wrapper")
     ok = "return FactorValues(evaluated, metadata=data.__formulaic_metadata__)" in norm(pm.node)
     ctx.check(ok, "C02.R9", "splitting into columns keeps the factor's metadata (name format, drop field)", pm.where, ctx.construct(pm, text="metadata"), "propagate_metadata changed")
     gf = P.method("formulaic.materializers.types.factor_values.FactorValuesMetadata", "get_format")
+    try:
+        go = sym.outcomes(gf.node)
+    except sym.Unmodelled:
+        go = []
     r = returns_of(gf.node)
-    ok = bool(r) and norm(r[0].value) == "self.format_reduced if self.reduced and self.format_reduced else self.format"
+    cases_ = sym.truth_cases(go, ["self.reduced", "self.format_reduced"], kinds=("return",))
+    ok = bool(cases_) and all(got == [("return", "self.format_reduced" if (a_ and b_) else "self.format")] for (a_, b_), got in cases_.items())
     ctx.check(ok, "C02.R9", "a reduced encoding is labelled with the reduced name format, a full one with the full format", gf.where, ctx.construct(gf, text="get_format"),
               f"get_format returns `{norm(r[0].value) if r else None}`")
     ap = P.method("formulaic.transforms.contrasts.Contrasts", "apply")
